@@ -18,6 +18,12 @@ import "golang.org/x/tools/go/ssa"
 
 func isHandledBuiltinCall(instruction ssa.CallInstruction) bool {
 	if instruction.Common().Value != nil {
+		if _, isBuiltin := instruction.Common().Value.(*ssa.Builtin); !isBuiltin {
+			// Not a language builtin: a function, a function-typed variable or an interface receiver that merely
+			// has the name of one. The only other handled call is Error() of the builtin error interface.
+			return instruction.Common().IsInvoke() && instruction.Common().Method.Name() == "Error" &&
+				len(instruction.Common().Args) == 0
+		}
 		switch instruction.Common().Value.Name() {
 		// for append, copy we simply propagate the taint like in a binary operator
 		case "ssa:wrapnilchk":
@@ -62,6 +68,11 @@ func doBuiltinCall(t *IntraAnalysisState, callValue ssa.Value, callCommon *ssa.C
 		return false
 	}
 	if callCommon.Value != nil {
+		if _, isBuiltin := callCommon.Value.(*ssa.Builtin); !isBuiltin {
+			// isHandledBuiltinCall holds: this is the call to Error() of the builtin error interface
+			simpleTransfer(t, instruction, callCommon.Value, callValue)
+			return true
+		}
 		switch callCommon.Value.Name() {
 		// for append, copy we simply propagate the taint like in a binary operator
 		case "ssa:wrapnilchk":
